@@ -27,7 +27,7 @@ def plan(tier):
         PG.shutdown_in_callback("shutdown"), PG.shutdown_in_callback("shutdown_wait"),
         PG.shutdown_in_callback("shutdown_kill"), PG.with_body_raises(2, 2),
         PG.shutdown_twice(2, True), PG.shutdown_twice(2, False), PG.late_callbacks(1),
-        PG.forced_with_callbacks(1), PG.forced_with_callbacks(2, True),
+        PG.forced_with_callbacks(1), PG.forced_with_callbacks(2, True), PG.forced_then_graceful(2, True),
         PG.reuse_in_callback(2, 3), PG.reuse_in_callback(2, 2), PG.resize_vs_callback_submit(1, 3),
         PG.map_partial(2, (5,), 3), PG.map_partial(1, (4,), 0),
     ]
